@@ -189,7 +189,24 @@ Definition ev_out (e : string * N * string) : list output :=
 
 Definition opt_err (e : option err) : list output := match e with Some x => [OErr x] | None => [] end.
 
-(* rewrite the paths of the watches below a renamed directory (recursive watches only) *)
+(* rewrite the paths of the watches below a renamed directory (recursive watches only); the path index is
+   re-keyed together with the watch paths *)
+(* is this watch re-pathed? *)
+Definition repathed (skip_wd : N) (old new : string) (x : watch) : bool :=
+  negb ((w_wd x =? skip_wd) || String.eqb (w_path x) new) && is_under (w_path x) old.
+
+(* watches.path after the loop: the key of every re-pathed watch is dropped (when it points to that watch), then the
+   new paths are entered.  Go's map order cannot matter when no new key collides with a remaining old key. *)
+Definition rekey_paths (twd : gmap N watch) (tpath : gmap string N) (skip_wd : N) (old new : string)
+  : gmap string N :=
+  let moved := filter (λ kx : N * watch, repathed skip_wd old new kx.2 = true) (map_to_list twd) in
+  let kept := filter (λ pw : string * N,
+                match twd !! pw.2 with
+                | Some x => negb (repathed skip_wd old new x && String.eqb (w_path x) pw.1)
+                | None => true
+                end = true) tpath in
+  foldr (λ kx m, <[replace_prefix (w_path kx.2) old new := kx.1]> m) kept moved.
+
 Definition rewrite_paths (W : wstate) (skip_wd : N) (old new : string) : wstate :=
   set_tables W
     (fmap (λ x : watch,
@@ -197,7 +214,7 @@ Definition rewrite_paths (W : wstate) (skip_wd : N) (old new : string) : wstate 
        else if is_under (w_path x) old
             then mkWatch (w_wd x) (w_flags x) (replace_prefix (w_path x) old new) (w_rec x)
             else x) (t_wd W))
-    (t_path W).
+    (rekey_paths (t_wd W) (t_path W) skip_wd old new).
 
 (* the watched path itself was deleted (the kernel has dropped the watch) or moved (we drop it): returns the new
    tables/kernel, an error to send after the lock is released, and whether handling stops here *)
